@@ -320,13 +320,12 @@ Section Sim.
   Hypothesis Hbase : cleanb (base cf) = true.
   Hypothesis Hsc : scales_ok scales = true.
 
-  (* MIME exemption of a chunk name: that of its scale's encoder *)
-  Definition ex_mime (n : path) : bool :=
-    match n with k :: _ => exempt (mime_of k) | [] => false end.
-
   Let U := universe (flat cf) P.
   Let X := universe (negb (flat cf)) P.
-  Notation INV := (Inv B plain gz cf ex_mime U).
+  (* the accessor-level invariant, for some assignment of a form (plain / .gz)
+     to the names (the MIME type is free per operation since the accessor
+     removes the other form of a name when it stores it) *)
+  Definition INV (t : fs B) (m : amap) : Prop := exists fm, Inv B plain gz cf U fm t m.
   Notation REL := (Rel (flat cf)).
   Notation fa_write := (fa_write_chunk chunk encode B plain gz gunzip mime_of cf scales).
   Notation fa_read := (fa_read_chunk chunk decode B plain gz gunzip raw cf scales).
@@ -335,15 +334,16 @@ Section Sim.
   Notation pio_read := (read_chunk chunk (list N) decode scales).
   Notation pio_run := (PioModel.run chunk (list N) encode decode scales).
 
-  Lemma step_refines : forall t m o, INV t m -> op_ok cf ex_mime U X o ->
+  Lemma step_refines : forall t m o, INV t m -> op_ok cf U X o ->
     exists t', run_op B plain gz gunzip cf t o
                = (to_model B plain (fst (spec_op (flat cf) m o)), t')
             /\ INV t' (snd (spec_op (flat cf) m o)).
   Proof.
-    intros t m o HI Hok.
-    exact (op_refines B plain gz gunzip Hgz cf ex_mime U X Hbase
+    intros t m o [fm HI] Hok.
+    destruct (op_refines B plain gz gunzip Hgz cf U X Hbase
              (universe_HU (flat cf) P) (universe_HPF (flat cf) P) (universe_HX (flat cf) P)
-             t m o HI Hok).
+             fm t m o HI Hok) as [t' [fm' [Hr HI']]].
+    exists t'. split; [exact Hr | exists fm'; exact HI'].
   Qed.
 
   Lemma store_step : forall t m k c buf, INV t m -> key_ok k = true -> In (k, c) P ->
@@ -355,9 +355,9 @@ Section Sim.
     destruct (key_ok_facts k Hk) as [Hne [Habs [Hsk _]]].
     assert (Hname : spec_chunk_name (flat cf) k (to_co c) = Some (cname (flat cf) (k, c))).
     { unfold spec_chunk_name. rewrite Hsk. reflexivity. }
-    assert (Hok : op_ok cf ex_mime U X (OStoreChunk k (to_co c) buf (mime_of k) true)).
+    assert (Hok : op_ok cf U X (OStoreChunk k (to_co c) buf (mime_of k) true)).
     { cbn [op_ok]. split; [exact Hne|]. split; [exact Habs|].
-      intros p Hp. rewrite Hname in Hp. inversion Hp; subst p. split; [|reflexivity].
+      intros p Hp. rewrite Hname in Hp. inversion Hp; subst p.
       apply in_universe. exists k, c. auto. }
     destruct (step_refines t m _ HI Hok) as [t' [Hr HI']].
     unfold spec_op in Hr, HI'. cbn [op_name] in Hr, HI'. rewrite Hname in Hr, HI'.
@@ -378,7 +378,7 @@ Section Sim.
     destruct (key_ok_facts k Hk) as [Hne [Habs [Hsk _]]].
     assert (Hname : spec_chunk_name (flat cf) k (to_co c) = Some (cname (flat cf) (k, c))).
     { unfold spec_chunk_name. rewrite Hsk. reflexivity. }
-    assert (Hok : op_ok cf ex_mime U X (OFetchChunk k (to_co c))).
+    assert (Hok : op_ok cf U X (OFetchChunk k (to_co c))).
     { cbn [op_ok]. split; [exact Hne|]. split; [exact Habs|].
       intros kp Hp. rewrite Hsk in Hp. inversion Hp; subst kp.
       split; apply in_universe; exists k, c; auto. }
@@ -454,7 +454,7 @@ Section Sim.
   Qed.
 
   Lemma inv_start : forall t0, fresh B cf t0 -> INV t0 [].
-  Proof. intros t0 Hf. apply inv_fresh; [apply universe_HU | exact Hf]. Qed.
+  Proof. intros t0 Hf. exists (fun _ => false). apply inv_fresh; [apply universe_HU | exact Hf]. Qed.
 End Sim.
 
 (* ---------- the closed statements ---------- *)
@@ -503,7 +503,7 @@ Section Final.
     - apply inv_start. exact Hf.
     - apply Rel_nil.
     - intros x Hx. right. exact Hx.
-    - destruct (read_step chunk decode B plain gz gunzip raw mime_of Hgz Hraw cf scales P Hb Hs
+    - destruct (read_step chunk decode B plain gz gunzip raw Hgz Hraw cf scales P Hb Hs
                   _ _ m' k c HI HR (or_introl eq_refl)) as [t' [Hr _]].
       rewrite Hr. reflexivity.
   Qed.
